@@ -339,6 +339,29 @@ func (s *System) findMailbox(ref *Ref) vivid.Mailbox {
 			return v
 		}
 	}
-	// 若上述皆未命中，返回系统根 Actor 的 Mailbox 作为默认兜底方案，保证 Mailbox 一定可用。
-	return s.Mailbox()
+	// 根 Actor 自身不在 actorContexts 中登记，指向根路径的引用仍然投递到根邮箱。
+	if ref.GetPath() == s.Ref().GetPath() {
+		return s.Mailbox()
+	}
+	// 本地地址下不存在（或已终止并注销）的路径：此前回落到根邮箱，而根 Actor 会忽略这些消息，
+	// 用户消息就此无声丢失。改为交给死信邮箱，按死信发布。
+	return deadLetterMailbox{system: s}
 }
+
+// deadLetterMailbox 把投递给本地不存在路径的信封转成死信事件。
+type deadLetterMailbox struct {
+	system *System
+}
+
+func (m deadLetterMailbox) Enqueue(envelop vivid.Envelop) {
+	m.system.TellSelf(ves.DeathLetterEvent{
+		Envelope: envelop,
+		Time:     time.Now(),
+	})
+}
+
+func (m deadLetterMailbox) Pause() {}
+
+func (m deadLetterMailbox) Resume() {}
+
+func (m deadLetterMailbox) IsPaused() bool { return false }
